@@ -71,7 +71,8 @@ func c16Roots(env *c16Env) map[string]any {
 }
 
 func c16Hasher() *deephash.Hasher {
-	return deephash.New("github.com/GuanceCloud/platypus", "github.com/GuanceCloud/platypus/pkg/verifsync", "github.com/GuanceCloud/platypus/internal/logger")
+	// opaque: the pool shim, loggers, and everything of package sync / sync/atomic (internally synchronised by definition)
+	return deephash.New("github.com/GuanceCloud/platypus", "github.com/GuanceCloud/platypus/pkg/verifsync", "github.com/GuanceCloud/platypus/internal/logger", "sync")
 }
 
 func c16SharedHash(env *c16Env) (uint64, int) {
@@ -177,8 +178,12 @@ type c16Tracker struct {
 	problems []string
 }
 
+// hashObj hashes the pooled object's own memory (what it points to may be live
+// data owned by somebody else, e.g. the syntax tree the last parse returned).
 func (t *c16Tracker) hashObj(obj any) uint64 {
-	return c16Hasher().Hash(map[string]any{"o": obj})
+	h := c16Hasher()
+	h.Shallow = true
+	return h.Hash(map[string]any{"o": obj})
 }
 
 func c16Explore(w *run.Worker, env *c16Env, ops []c16Op, combo []int, bound int, maxExecs int, alone map[[2]int]string) {
@@ -224,7 +229,9 @@ func c16Explore(w *run.Worker, env *c16Env, ops []c16Op, combo []int, bound int,
 	defer uninstall()
 	outs := make([]string, len(combo))
 	var sharedBefore uint64
+	var syncBefore int64
 	mk := func() []func() {
+		syncBefore = atomic.LoadInt64(&vsync.SyncOps)
 		for _, p := range c16Pools() {
 			p.Drain()
 		}
@@ -267,7 +274,9 @@ func c16Explore(w *run.Worker, env *c16Env, ops []c16Op, combo []int, bound int,
 		for _, pr := range tr.problems {
 			w.Violate("C16:pool-ownership:"+strings.SplitN(pr, ":", 2)[0], pr+"\n"+desc(), cs)
 		}
-		if h, _ := c16SharedHash(env); h != sharedBefore {
+		if atomic.LoadInt64(&vsync.SyncOps) != syncBefore {
+			w.Note("schedules_with_lock_operations(shared-hash exempt)", 1)
+		} else if h, _ := c16SharedHash(env); h != sharedBefore {
 			w.Violate("C16:shared-state-written-during-schedule", desc(), cs)
 		}
 		key := fmt.Sprint(x.Choices)
@@ -482,7 +491,7 @@ func init() {
 	run.Register(&run.Check{
 		ID:    "C16",
 		Level: "model_checking",
-		Rule: "7 operations: parse(valid source exercising every token kind), parse(invalid source), run of shared loaded scripts plain / grok+add_pattern / use() of two callees / loops+collections / every builtin, each on its own point; " +
+		Rule: "8 operations: parse(valid source exercising every token kind), parse(invalid source), load of a second script set whose files have the same text as the running ones but a different callee, run of shared loaded scripts plain / grok+add_pattern / use() of two callees / loops+collections / every builtin, each on its own point; " +
 			"(1) every operation alone and every ordered pair: the deep hash (reflection+unsafe, unexported fields included) of everything reachable from the shared roots — the loaded scripts and EVERY package-level variable of the 9 repo packages (generated accessors) — must be unchanged by the operation unless it performed a lock/once operation; " +
 			"(2) cooperative scheduler over the sync.Pool shim: all 28 pairs with <=2 preemptions (thorough 3) and all 84 triples with <=1 (thorough 2) at every pool/lock operation, first thread chosen too; oracles per schedule: each result equals the alone-run, no panic, no deadlock, pooled objects owned by one goroutine between Get and Put (no put by non-owner, no double put, no object handed out twice, no modification while pooled), shared hash unchanged; " +
 			"(3) separate free-running -race pass over all pairs, triples and 8/16-goroutine fan-outs (non-exhaustive, reported apart); distinct = distinct schedules",
